@@ -62,3 +62,12 @@ def mf_chain_m1(inputs, model_fidelity=(0,), delay_scale=0.0):
     if delay_scale:
         time.sleep(delay_scale * ((x0 * 7919 + x1 * 104729) % 1.0))
     return {'u': np.exp(0.5 * x0) + 0.3 * x1 + 0.25 ** (a + 1) * np.sin(4 * x0)}
+
+
+def zero_model(inputs, delay_scale=0.0):
+    """vanishes on the coarse grids (centre and end points of both domains): the surrogate stays identically zero and every
+    candidate's error indicator is undefined (0/0) — the refinement choice then rests on the scan order of the candidates"""
+    x0, x1 = float(np.atleast_1d(inputs['x0'])[0]), float(np.atleast_1d(inputs['x1'])[0])
+    if delay_scale:
+        time.sleep(delay_scale * ((x0 * 7919 + x1 * 104729) % 1.0))
+    return {'u': 8.0 * x0 * (x0 - 0.5) * (x0 - 1.0) * x1 * (x1 * x1 - 1.0) * (1.0 + 0.3 * x0)}
